@@ -6,6 +6,7 @@ from lib import portcase as pc
 from lib.fastsim import HarnessError
 
 ID = "C07"
+REQUIRED_CLASSES = ['descending_in_word', 'repeated_in_word', 'read_after_write_same_word', 'partial_enable', 'core:conv']      # classes that must occur in every run (else harness error: vacuous generator)
 LEVEL = "exploration"
 RULE = ("case = (converter: up 1:2..1:32 or down 2:1..8:1, mode read/write/both, reverse on/off) x (user command sequence whose addresses inside one wide word are ascending, "
         "descending, repeated or random, random cmd.last, gaps, data lead, any byte enables; flush raised at the end) x (controller-side realistic slave: stall schedule, "
